@@ -1,6 +1,6 @@
 (** C09 - equality and ordering are coherent and numerically exact across types. *)
 From Cel.Model Require Import Compare.
-From Cel.Proofs Require Import CompareProofs FloatOrder.
+From Cel.Proofs Require Import CompareProofs FloatOrder EqSymmetry.
 From Coq Require Import QArith.
 Open Scope Z_scope.
 
@@ -113,6 +113,23 @@ Proof. exact max_numbers. Qed.
 (** Non-vacuity / boundary examples (the defects this property found are fixed). *)
 Example C09_ex_2_53 : v_eq (VInt 9007199254740993) (VDbl (f64_of_Z 9007199254740992)) = false.
 Proof. reflexivity. Qed.
+(** == (and so !=) is symmetric on all values - numbers of different kinds, lists, maps and function
+    values included - when every map holds each key once, as a HashMap does ([nodup_maps]); without
+    that hypothesis it fails ([v_eq_sym_needs_nodup]: an association list that repeats a key).  The
+    map case is the counting argument: same size, distinct keys, every left entry found equal in
+    the right - then every right entry is found equal in the left. *)
+Theorem C09_eq_symmetric : forall a b, nodup_maps a -> nodup_maps b ->
+  v_eq a b = v_eq b a /\ v_ne a b = v_ne b a.
+Proof. intros a b Ha Hb. split; [now apply v_eq_sym|now apply v_ne_sym]. Qed.
+
+Example C09_ex_sym_hyp : nodup_maps (VMap [(KInt 1, VList [VDbl S754_nan]); (KUint 1, VMap [])]) /\
+  v_eq (VMap [(KInt 1, VInt 0)]) (VMap [(KUint 1, VInt 0)]) = false.
+Proof.
+  split; [|reflexivity]. apply nodup_map. split.
+  - cbn. constructor; [|constructor; [intros []|constructor]]. intros [H|[]]. discriminate.
+  - repeat constructor.
+Qed.
+
 Example C09_ex_2_63 : v_cmp (VInt 9223372036854775807) (VDbl (f64_of_Z 9223372036854775808)) = Some Lt.
 Proof. reflexivity. Qed.
 Example C09_ex_half : v_cmp (VUInt 1) (VDbl (f64_of_bits 4609434218613702656)) = Some Lt. (* 1.5 *)
@@ -135,3 +152,4 @@ Print Assumptions C09_unrelated.
 Print Assumptions C09_nan.
 Print Assumptions C09_minmax.
 Print Assumptions C09_max_intlike.
+Print Assumptions C09_eq_symmetric.
